@@ -180,6 +180,14 @@ Fixpoint sce (E : env) (e : fn) : option qci :=
 (* polynomial (degree <= 2) value of an atom argument, pi symbolic *)
 Fixpoint pq_pow (a : pq) (n : nat) : option pq :=
   match n with O => Some (pq_c (cq_q 1)) | S m => match pq_pow a m with Some r => pq_mul a r | None => None end end.
+(* a real constant sub-expression whose pi-content leaves the Laurent range (e.g. pi^2 r^2 in a Gaussian)
+   is taken at pi := P; this is only used where the symbolic route fails *)
+Definition const_fallback (E : env) (e : fn) : option pq :=
+  if has_var e then None else
+  match sce E e with
+  | Some v => if qc_eqb (im v) 0 then Some (pq_c (cq_q (re v))) else None
+  | None => None end.
+Definition orelse {A} (a b : option A) : option A := match a with Some _ => a | None => b end.
 Fixpoint affe (E : env) (e : fn) : option pq :=
   match e with
   | Var => Some (cq0, (e_al E, lp0), (e_be E, lp0))
@@ -187,13 +195,13 @@ Fixpoint affe (E : env) (e : fn) : option pq :=
   | Pi => Some (pq_c ((0, 0, 1), lp0)) | Jm => Some (pq_c (lp0, lpq 1))
   | Par k => match e_rho E k with Some c => Some (pq_c c) | None => None end
   | Add a b => match affe E a, affe E b with Some x, Some y => Some (pq_add x y) | _, _ => None end
-  | Mul a b => match affe E a, affe E b with Some x, Some y => pq_mul x y | _, _ => None end
+  | Mul a b => orelse (match affe E a, affe E b with Some x, Some y => pq_mul x y | _, _ => None end) (const_fallback E e)
   | Neg a => match affe E a with Some x => Some (pq_neg x) | None => None end
-  | Inv a => match affe E a with
+  | Inv a => orelse (match affe E a with
              | Some (k2, k1, k0) => if cq_is0 k2 && cq_is0 k1 then
                                       match cq_inv k0 with Some r => Some (pq_c r) | None => None end else None
-             | None => None end
-  | Pw a n => match affe E a with Some x => pq_pow x n | None => None end
+             | None => None end) (const_fallback E e)
+  | Pw a n => orelse (match affe E a with Some x => pq_pow x n | None => None end) (const_fallback E e)
   | _ => None
   end.
 (* real affine argument s x + b *)
